@@ -549,6 +549,14 @@ encodeResponse:
         /* Handshake response */
         *alertDescription = SSL_ALERT_NONE;
         rc = sslEncodeResponse(ssl, &tmp, requiredLen);
+        if (rc < 0 && rc != SSL_FULL && ssl->err != SSL_ALERT_NONE)
+        {
+            /* The flight writer refused the peer's message: send the
+               alert it chose instead of a flight. */
+            *alertDescription = (unsigned char)ssl->err;
+            *alertLevel = SSL_ALERT_LEVEL_FATAL;
+            rc = tls13EncodeAlert(ssl, ssl->err, &tmp, requiredLen);
+        }
     }
     if (rc == SSL_FULL)
     {
